@@ -1080,6 +1080,11 @@ def finalize(counters, sets, tier):
     fmts = set(sets.get("target_formats", []))
     if not {"npy", "fits", "txt"} <= fmts:
         out.append(f"target formats compared: {sorted(fmts)} (npy, fits, txt expected)")
+    if counters.get("noise_reference_failed"):
+        out.append(f"{counters['noise_reference_failed']} stochastic case(s) not judged: the re-simulation in exposure mode "
+                   f"with the declared seed failed {sorted(sets.get('noise_reference_exception', []))[:2]}")
+    if counters.get("nlopt_runs_refused_by_pygmo", 0) > counters.get("algo_nlopt_finished", 0):
+        out.append("more NLopt calibrations aborted by pygmo than finished")
     rejected = set(sets.get("invalid_classes_rejected", []))
     for need in ("single-readout:unequal", "single-readout:oob_target", "single-readout:oob_both"):
         if need not in rejected:
